@@ -11,7 +11,7 @@ from vlib import run_lines, sh, VERIF, REPO, BUILD, HARNESS
 import ident_common as ic
 from ident_common import hx, unhx, identgen
 
-WORK = os.path.join(BUILD, "ident-cpp")
+WORK = os.path.join(BUILD, "ident-cpp", str(os.getpid()))       # per process: concurrent runs must not share files
 INCLUDES = [os.path.join(REPO, "crates", "cpp", "helper-types"), os.path.join(REPO, "crates", "cpp", "test_headers")]
 EXCLUDED = {"issue1514-6.wit", "named-fixed-length-list.wit"}       # crates/test/src/cpp.rs should_fail_verify
 OPTS = ["-", "own=borrowing"]
@@ -46,7 +46,7 @@ def predict(scopes, M):
             modcase = len({x.lower() for x in ns}) > 1
             cls = ("cpp-dup-snake" if snake_pos else "cpp-pascal-digit-merge") if modcase else "case-only-collision"
             R.append({"reason": cls, "ident": ident, "names": sorted(set(ns)), "scope": s["owner"]})
-        if kind in ("params", "fields"):
+        if snake_pos:      # parameters, fields and every namespace component (interfaces, package namespace, world)
             for n in names:
                 if M[n]["c"] in STD_TYPEDEFS:
                     R.append({"reason": "cpp-std-typedef-shadow", "ident": M[n]["c"], "names": [n], "scope": s["owner"]})
@@ -73,7 +73,7 @@ def explain(diag, reasons):
     if dup and re.search(r"redeclar|redefin|conflicting|duplicate|ambiguous|overloaded|previous", msg):
         return ([r for r in dup if any(r["ident"] in i for i in ids)] or dup)[0]
     std = [r for r in reasons if r["reason"] == "cpp-std-typedef-shadow"]
-    if std and (any(r["ident"] in ids for r in std) or re.search(r"cannot be used as|expected|does not name a type|not declared|no match for call|invalid|cannot convert", msg)):
+    if std and (any(r["ident"] in ids for r in std) or re.search(r"cannot be used as|expected|does not name a type|not declared|no match for call|invalid|cannot convert|redeclared as different kind|is not a class, namespace", msg)):
         return ([r for r in std if r["ident"] in ids] or std)[0]
     tmp = [r for r in reasons if r["reason"] == "cpp-temp-clash"]
     if tmp and (re.search(r"redeclar|conflicting|shadows|previous|cannot convert|invalid conversion|no match|not declared", msg)):
@@ -179,6 +179,7 @@ def run(c):
         if okc: shutil.rmtree(d, ignore_errors=True)
         return ("ok" if okc else "rejected", diags)
     res = ic.parallel(work, range(len(jobs)))
+    shutil.rmtree(WORK, ignore_errors=True)
     phase("g++")
     hist = collections.Counter()
     reqs, impl_ans, model_ans = [], [], []
